@@ -40,7 +40,7 @@ type pqFile struct {
 
 func leafNode(k string) parquet.Node {
 	switch k {
-	case "int64":
+	case "int64", "rowindex":
 		return parquet.Int(64)
 	case "int32":
 		return parquet.Leaf(parquet.Int32Type)
@@ -118,6 +118,11 @@ func genParquet(rng *rand.Rand, nRows int, plain bool) (*pqFile, error) {
 		}
 		f.Cols = append(f.Cols, c)
 	}
+	// The fork's writer derives a row group's NumRows from its FIRST column, and counts values
+	// there when that column is repeated; octosql's zero-column path (count(*)) trusts NumRows. So
+	// that the fixture's metadata is right, the first column (names sort; "A0" sorts first) is
+	// always a required scalar: the row index.
+	f.Cols = append(f.Cols, pqCol{Name: "A0", Rep: "req", Leaf: pqLeaf{Kind: "rowindex"}})
 	sort.Slice(f.Cols, func(i, j int) bool { return f.Cols[i].Name < f.Cols[j].Name })
 
 	group := parquet.Group{}
@@ -162,6 +167,9 @@ func genParquet(rng *rand.Rand, nRows int, plain bool) (*pqFile, error) {
 			switch c.Rep {
 			case "req":
 				v := randLeafValue(rng, c.Leaf.Kind, plain)
+				if c.Leaf.Kind == "rowindex" {
+					v = int64(r)
+				}
 				row = append(row, parquet.ValueOf(v).Level(0, 0, col))
 				model[ci] = modelOf(v)
 				col++
